@@ -7,8 +7,8 @@ PROPS = {
              "non-trivial = every event (each exercises padding + compression); model states = MC_SM3 toy-exhaustive",
         models=[dict(module="AnchorSM3", anchor=True, about="SM3.tla reproduces the OpenSSL-made digests of corpus/sm3_openssl_bytes.ndjson"),
                 dict(module="MC_SM3", about="PadImpl = Pad, padding invariants for every length 0..1100 and giant lengths; machine = Hash for all splits")],
-        stages=[dict(suite="sm3", nda="compare", trace="TraceSM3",
-                     required_classes={"both": ["sm3.hash/empty", "sm3.hash/r55", "sm3.hash/r56", "sm3.hash/r63", "sm3.hash/r0", "sm3.hash/multi", "sm3.block/hook-block", "sm3.final/giant-final", "sm3.hash/crafted-internal"]})],
+        stages=[dict(suite="sm3", nda="compare", trace="TraceSM3", plan=dict(module="PlanSM3", cfg_quick="PlanSM3_q", cfg_thorough="PlanSM3_t"),
+                     required_classes={"both": ["sm3.hash/empty", "sm3.hash/r55", "sm3.hash/r56", "sm3.hash/r63", "sm3.hash/r0", "sm3.hash/multi", "sm3.block/hook-block", "sm3.final/giant-final", "sm3.hash/crafted-internal", "sm3.hash/crafted-value"]})],
         assumptions=["SM3.tla transcribes GB/T 32905 (anchored by the standard's examples and OpenSSL digests as ASSUMEs)",
                      "TLC, CommunityModules Json/IOUtils/Bitwise"],
     ),
@@ -43,9 +43,11 @@ PROPS = {
              "and zero-length requests that are followed by further requests (all but the 'new' events)",
         trivial_classes=("new",),
         models=[dict(module="MC_Mersenne", about="end-around-carry addition and rotation modulo 2^5-1, every operand pair: equals arithmetic mod 2^w-1"),
+                dict(module="MC_ZUCJump", cfg="MC_ZUCJump_q", tier="quick", workers=8, about="LFSR skip-ahead (x^n mod the feedback polynomial over GF(2^31-1), used to check the register after a skipped stretch of 2^27 words) = n single LFSRWork steps, 3 registers x 10 step counts"),
+                dict(module="MC_ZUCJump", cfg="MC_ZUCJump", tier="thorough", workers=8, timeout=1800, about="same, 6 registers (official keys, all-ones, all-(2^31-1) cells) x 53 step counts up to 4099"),
                 dict(module="MC_ZUCSplit", about="request layer refines the word-at-a-time stream for every composition (toy totals), zero-length requests included")],
         stages=[dict(suite="zuc", nda="compare", trace="TraceZUC", plan=dict(module="PlanZUC", cfg_quick="PlanZUC_q", cfg_thorough="PlanZUC_t"),
-                     required_classes={"both": ["zuc.req/first", "zuc.req/continued", "zuc.req/zero-length", "zuc.new/new.add31-boundary"]})],
+                     required_classes={"both": ["zuc.req/first", "zuc.req/continued", "zuc.req/zero-length", "zuc.new/new.add31-boundary", "zuc.skip/skip"]})],
         assumptions=["ZUC.tla transcribes GM/T 0001 / ZUC v1.6 (three official vectors and the structural S-box definitions as ASSUMEs)"],
     ),
     "C18": dict(
@@ -53,7 +55,7 @@ PROPS = {
         rule="events = EEA::encrypt / EIA::gen_mac calls on fresh objects; distinct = distinct (key, count, bearer, direction, length, message); non-trivial = all",
         models=[dict(module="MC_EEA", about="mask / bit-extraction / shift helpers equal their bit-level meaning for every shift and basis word; IV layouts for all bearers/directions")],
         stages=[dict(suite="eea", nda="compare", trace="TraceZUC",
-                     required_classes={"both": ["eea.encrypt/eea.len%32=0", "eea.encrypt/eea.len%32=1", "eea.encrypt/eea.len%32=31", "eia.mac/eia.len0", "eia.mac/eia.len%32=0", "eia.mac/eia.len-other", "eea.encrypt/eea.len-other.add31-boundary", "eia.mac/eia.len-other.add31-boundary"]})],
+                     required_classes={"both": ["eea.encrypt/eea.len%32=0", "eea.encrypt/eea.len%32=1", "eea.encrypt/eea.len%32=31", "eia.mac/eia.len0", "eea.encrypt/eea.len0", "eia.mac/eia.len%32=0", "eia.mac/eia.len-other", "eea.encrypt/eea.len-other.add31-boundary", "eia.mac/eia.len-other.add31-boundary"]})],
         assumptions=["EEA3.tla transcribes 3GPP TS 35.221 (official test sets as ASSUMEs) over ZUC.tla"],
     ),
     "C03": dict(
@@ -117,7 +119,7 @@ PROPS = {
                 dict(module="MC_SM2Enc", cfg="MC_SM2Enc_q_hash", expect="violation", about="negative: decryption without the C3 comparison must be refuted")],
         stages=[dict(suite="sm2dec", nda="validate", trace="TraceSM2", plan=dict(module="PlanSM2Enc", cfg_quick="PlanSM2Enc_q", cfg_thorough="PlanSM2Enc_t"),
                      required_classes={"both": ["sm2.decrypt/untouched", "sm2.decrypt/flip-c1", "sm2.decrypt/flip-body", "sm2.decrypt/truncated",
-                                                "sm2.decrypt/offcurve", "sm2.decrypt/valid-window-y2", "sm2.decrypt/comp-valid-window-y2", "sm2.decrypt/valid-window-x2+a", "codec.asn1_dec/asn1.dec.valid-window-y2", "sm2.decrypt/x+p", "sm2.decrypt/nonresidue", "sm2.decrypt/valid-small-x", "codec.asn1_dec/asn1.dec.offcurve", "codec.asn1_dec/asn1.dec.valid-small-x", "sm2.decrypt/fold-c3", "sm2.decrypt/c1-zero-forged", "codec.asn1_dec/asn1.dec.c1-zero-forged"]})],
+                                                "sm2.decrypt/offcurve", "sm2.decrypt/retag", "sm2.decrypt/retag-junk-y", "sm2.decrypt/valid-window-y2", "sm2.decrypt/comp-valid-window-y2", "sm2.decrypt/valid-window-x2+a", "codec.asn1_dec/asn1.dec.valid-window-y2", "sm2.decrypt/x+p", "sm2.decrypt/nonresidue", "sm2.decrypt/valid-small-x", "codec.asn1_dec/asn1.dec.offcurve", "codec.asn1_dec/asn1.dec.valid-small-x", "sm2.decrypt/fold-c3", "sm2.decrypt/c1-zero-forged", "codec.asn1_dec/asn1.dec.c1-zero-forged"]})],
         assumptions=["SM2.tla transcribes GB/T 32918.4 and the SEC1 point decoding rules"],
     ),
     "C15": dict(
@@ -129,7 +131,7 @@ PROPS = {
                 dict(module="MC_SM2Kex", cfg="MC_SM2Kex_neg", expect="violation", about="negative: a validity test that accepts the point at infinity must be refuted")],
         stages=[dict(suite="sm2kex", nda="validate", trace="TraceSM2", plan=dict(module="PlanKex"),
                      required_classes={"both": ["kx.step2/step2.none", "kx.step3/step3.none", "kx.step4/step4.none", "kx.step2/step2.offcurve", "kx.step2/step2.infinity",
-                                                "kx.step3/step3.bitflip", "kx.step4/step4.other", "kx.step2/step2.rerand", "kx.step3/step3.offcurve-forged", "kx.step2/step2.vzero", "kx.step2/step2.tzero"]})],
+                                                "kx.step3/step3.bitflip", "kx.step4/step4.other", "kx.step2/step2.rerand", "kx.step3/step3.offcurve-forged", "kx.step2/step2.vzero", "kx.step2/step2.tzero", "kx.step2/step2.rerun", "kx.step3/step3.rerun", "kx.step4/step4.rerun"]})],
         assumptions=["SM2.tla transcribes GB/T 32918.3 with w = 127 and one-byte tags (GM/T 0003.5 Annex values as ASSUMEs)"],
     ),
     "C14": dict(
@@ -173,7 +175,7 @@ PROPS = {
                 dict(module="MC_JacobianImpl", cfg="MC_JacobianImpl_mulneg", expect="violation", about="negative: window multiplication over the unfixed addition must be refuted"),
                 dict(module="MC_Mont", about="register-level Montgomery mul / add / sub with R = 2^7: every prime in (64,128) x every operand pair")],
         stages=[dict(suite="sm2ec", nda="compare", trace="TraceSM2", plan=dict(module="PlanField", cfg_quick="PlanField", cfg_thorough="PlanField_t"),
-                     required_classes={"both": ["fp.op/fp.mul.planned-window", "fn.op/fn.mul.planned-window", "ec.add/add.P=Q", "ec.add/add.P=Q.diffZ", "ec.add/add.P=-Q", "ec.add/add.O+Q", "ec.add/add.generic", "ec.add/add.same-y", "ec.smul/smul.k=n", "ec.smul/smul.k>n",
+                     required_classes={"both": ["fp.op/fp.mul.planned-window", "fn.op/fn.mul.planned-window", "ec.add/add.P=Q", "ec.add/add.P=Q.diffZ", "ec.add/add.P=-Q", "ec.add/add.O+Q", "ec.add/add.generic", "ec.add/add.same-y", "ec.add/add.O+Q.otherO", "ec.add/add.P+O.otherO", "ec.add/add.O+O.otherO", "ec.smul/smul.k=n", "ec.smul/smul.k>n",
                                                 "ec.smul/smul.k=0", "ec.gmul/gmul.k<n", "ec.valid/valid.off", "ec.table/table.entry", "ec.table/table.row-base",
                                                 "fp.op/fp.mul.near-modulus", "fp.op/fp.add.near-2^256-m", "fn.op/fn.add.near-modulus"]})],
         assumptions=["Weierstrass.tla is the affine group law; verdicts are on denotations (X/Z^2, Y/Z^3 of the Montgomery-decoded coordinates)", "BigNat Java override (cross-checked by MC_BigNat)"],
